@@ -116,7 +116,10 @@ class Hand(Hashable, ABC):
     def __init__(self, cards: CardsLike) -> None:
         self.__cards = Card.clean(cards)
 
-        if not self.lookup.has_entry(self.cards):
+        if (
+                any(card.unknown_status for card in self.cards)
+                or not self.lookup.has_entry(self.cards)
+        ):
             raise ValueError(
                 (
                     f'The cards {repr(cards)} form an invalid'
